@@ -486,6 +486,7 @@ func (ps *sparser) postfix(x SExpr) SExpr {
 // ---- contract file structure ----
 
 type LoopSpec struct {
+	Unreachable bool
 	Invariants []Clause
 	Decreases  *Clause
 	DecStar    bool
@@ -577,7 +578,7 @@ var clauseKW = map[string]bool{
 	"func": true, "ghost": true, "lemma": true, "axiom": true, "requires": true, "ensures": true,
 	"modifies": true, "invariant": true, "decreases": true, "loop": true, "floats": true,
 	"inline": true, "trusted": true, "panics": true, "at": true, "use": true, "obligations": true,
-	"induction": true, "nosafety": true, "withinlen": true, "allocates": true, "trigger": true, "lemmas": true, "pure": true, "package": true, "opaque": true,
+	"induction": true, "nosafety": true, "withinlen": true, "allocates": true, "trigger": true, "lemmas": true, "unreachable": true, "pure": true, "package": true, "opaque": true,
 }
 
 // ParseSpecText parses contract text (already stripped of //@ prefixes); pkg is the
@@ -810,6 +811,10 @@ func (ss *SpecSet) ParseSpecText(lines []string, wheres []string, pkg string) er
 				for _, a := range splitTopComma(rc.text) {
 					curLemma.AutoUses = append(curLemma.AutoUses, strings.TrimSpace(a))
 				}
+			}
+		case "unreachable":
+			if curLoop != nil {
+				curLoop.Unreachable = true
 			}
 		case "withinlen":
 			if cur != nil {
